@@ -1,0 +1,16 @@
+//go:build verif
+
+package enum
+
+import (
+	"reflect"
+
+	"github.com/jsightapi/jsight-schema-core/verifhook"
+)
+
+func verifScanStep(step any, c byte, index, size int) {
+	if !verifhook.ScanOn() {
+		return
+	}
+	verifhook.ScanStep(verifhook.KindEnum, reflect.ValueOf(step).Pointer(), c, index, size)
+}
